@@ -246,6 +246,33 @@ claim("C08", "other",
       "static analysis: partial evaluation of the Lie drivers on a generic symbolic instance + exact polynomial identities",
       "DESIGN.md §5 C08")
 
+claim("C09", "other",
+      "Both conversion chains (centre manifold -> synodic and back) are interpreted with every stage replaced by a tagging "
+      "stub: stage sequences must be mirror images through a frozen inverse-partner table (pairs proved inverse in C18.c/d "
+      "and C08.c), the forward chain must use the forward coordinate series, every stage must consume its predecessor's "
+      "output with the caller's tolerance and the service's mix_pairs; point configuration binds the collinear map pair "
+      "together and refuses L3/triangular points; the 4<->6 packing, _STATE_INDEX, _CM_SECTION_TABLE, build_state, the "
+      "missing-coordinate map, state_map, var_indices and the backend's slots are extracted and must denote one layout; the "
+      "energy-level lift is extracted as the term Re H(state) - h0 with the unknown in its own slot; the centre-manifold "
+      "restriction keeps exactly the monomials free of q1 and p1 (interpreted on generic coefficients).",
+      "Trusted: inverse-partner table (each pair proved elsewhere), kpe semantics. Not decided: the r^(N+1) scaling of the "
+      "round-trip and energy discrepancies.",
+      "static analysis: stage tracing by partial evaluation + slot-table extraction",
+      "DESIGN.md §5 C09")
+
+claim("C14", "other",
+      "The prange body of _poincare_map is checked by the effect (race) rule and its callees write no argument; the engine's "
+      "solve() is interpreted with a simulated executor whose futures complete in reverse order for 1, 2 and 3 workers with "
+      "the backend abstracted as a deterministic row-wise map: the returned (state, time) rows are equal as multisets and "
+      "every row has its section coordinate zero; worker and backend write no shared attribute; section enforcement, "
+      "plane projection and labels are extracted on symbolic states for all four sections; the crossing test is evaluated "
+      "over the sign abstraction (4 sections x 27 cases) incl. alpha, the Hermite refinement pairing (old/new state and "
+      "rhs of the same slot) and slot tables are read from the interpreted step.",
+      "Trusted: numba prange semantics (documentation), backend row-wise abstraction (justified by the race rule), kpe. "
+      "Not decided: conservation of the reduced energy along iterates and 'genuine return' (numerical).",
+      "static analysis: effect (race) analysis + partial evaluation with a simulated executor + order-abstract evaluation",
+      "DESIGN.md §5 C14")
+
 PENDING = ["C02", "C03", "C04", "C05", "C06", "C07", "C08", "C09", "C10", "C11", "C12", "C13", "C14", "C15",
            "C16", "C17", "C18", "C19", "C20"]
 
